@@ -156,17 +156,69 @@ func (e *Engine) execIf(st *State, b *ssa.BasicBlock, in *ssa.If) []outcome {
 	}
 	s2 := st.clone()
 	st.assume(c)
-	e.refineFromTable(st, c)
-	if lblT != "" {
-		st.label(lblT)
+	var outs []outcome
+	if x, vals := e.smallPreimage(c); x != nil {
+		// a table class with few members: one path per member, so that the read byte is a constant on each
+		for _, v := range vals {
+			sv := st.clone()
+			eq := smt.Eq(x, smt.IntC(v))
+			sv.assume(eq)
+			e.refineFromTable(sv, eq)
+			if sv.dead {
+				continue
+			}
+			if lblT != "" {
+				sv.label(lblT)
+			}
+			sv.label(fmt.Sprintf("byte=%d", v))
+			outs = append(outs, e.guarded(sv, func() []outcome { return e.execBlock(sv, b.Succs[0], 0) })...)
+		}
+	} else {
+		e.refineFromTable(st, c)
+		if lblT != "" {
+			st.label(lblT)
+		}
+		outs = e.guarded(st, func() []outcome { return e.execBlock(st, b.Succs[0], 0) })
 	}
-	outs := e.guarded(st, func() []outcome { return e.execBlock(st, b.Succs[0], 0) })
 	s2.assume(smt.Not(c))
 	if lblF != "" {
 		s2.label(lblF)
 	}
 	outs = append(outs, e.guarded(s2, func() []outcome { return e.execBlock(s2, b.Succs[1], 0) })...)
 	return outs
+}
+
+// smallPreimage: the condition is tbl(x) == c for a read x and the class has 2..forkbytes members.
+func (e *Engine) smallPreimage(c *smt.Term) (*smt.Term, []int64) {
+	if e.cur == nil || e.cur.fc == nil || e.cur.fc.Opts["forkbytes"] == "" || e.pure > 0 {
+		return nil, nil
+	}
+	max := 0
+	fmt.Sscanf(e.cur.fc.Opts["forkbytes"], "%d", &max)
+	if c.Op != "=" {
+		return nil, nil
+	}
+	a, b := c.Args[0], c.Args[1]
+	if a.IsConst() {
+		a, b = b, a
+	}
+	if !b.IsConst() || a.Op != "app" || len(a.Args) != 1 || a.Args[0].Op != "select" || !b.Val.IsInt64() {
+		return nil, nil
+	}
+	d, ok := smt.FunDefs[a.Name]
+	if !ok || d.Table == nil {
+		return nil, nil
+	}
+	var pre []int64
+	for i, v := range d.Table {
+		if v == b.Val.Int64() {
+			pre = append(pre, int64(i))
+		}
+	}
+	if len(pre) < 2 || len(pre) > max {
+		return nil, nil
+	}
+	return a.Args[0], pre
 }
 
 // refineFromTable: after assuming a branch condition, learn concrete values:
@@ -214,6 +266,10 @@ func (e *Engine) refineFromTable(st *State, c *smt.Term) {
 			v := smt.IntC(pre[0])
 			st.assume(smt.Eq(a.Args[0], v))
 			sub[a.Args[0]] = v
+		} else if len(pre) > 1 && b.Val.Sign() != 0 {
+			// the members of the class lie in an interval (the class value is not the out-of-range default)
+			st.assume(smt.Le(smt.IntC(pre[0]), a.Args[0]))
+			st.assume(smt.Le(a.Args[0], smt.IntC(pre[len(pre)-1])))
 		}
 	}
 	visit(c)
@@ -221,6 +277,9 @@ func (e *Engine) refineFromTable(st *State, c *smt.Term) {
 		return
 	}
 	e.substState(st, sub)
+	for k, v := range st.rw {
+		st.rw[k] = smt.Subst(v, sub)
+	}
 	for fr := st.fr; fr != nil; fr = fr.parent {
 		for h, act := range fr.active {
 			changed := false
